@@ -26,7 +26,13 @@ FACTORY_NAMES = [
     "discovery.set_speed", "discovery.info_resp", "ble.pdu", "ble.send_pdu", "ble.adv_mode",
     "ble.start", "ble.stop", "ble.disconnected", "phy.packet", "phy.send", "phy.sync_word",
     "phy.freq", "esb.pdu", "esb.send_pdu", "esb.start", "dot15d4.pdu", "dot15d4.send_pdu",
-    "dot15d4.sniff", "unifying.start", "unifying.stop", "unifying.jam", "generic.verbose_factory"]
+    "dot15d4.sniff", "unifying.start", "unifying.stop", "unifying.jam", "generic.verbose_factory",
+    # every command-result class, and wrappers created directly / filled in after construction: the
+    # sender frames them as FRESH objects (never serialized before)
+    "generic.param_error", "generic.disconnected", "generic.wrong_mode", "generic.unsupported_domain",
+    "generic.busy", "generic.cmd_result_code", "generic.Error()", "generic.Success()", "generic.Busy()",
+    "generic.result_set_later", "generic.progress_set_later", "generic.verbose_set_later",
+    "generic.debug_set_later"]
 PADDABLE = ["generic.verbose", "generic.debug", "ble.pdu", "ble.send_pdu", "phy.packet", "phy.send",
             "esb.pdu", "esb.send_pdu", "dot15d4.pdu", "dot15d4.send_pdu", "discovery.info_resp"]
 
@@ -466,10 +472,62 @@ def gen_pb_streams(ctx, pbm, pool):
         S.append({"cls": "clean", "items": items, "pb": "pack",
                   "chunkings": [["sizes", []], ["every", rng.choice([1, 2, 3])] if n <= 4000 else ["every", 61],
                                 ["sizes", sorted(rng.randrange(0, n + 1) for _ in range(4))[:1] + [rng.randrange(1, 9)]]]})
-    classes = {"payloads_available": len(uniq), "payloads_used": len(singles) + len(packed),
+    # A damaged message (a fully populated message of some kind followed by a garbage byte: decoding
+    # fails AFTER its fields were read) directly followed by a well-formed message of the SAME kind with
+    # all fields at their defaults: nothing of the damaged one may show up in the next delivery.
+    kinds = {}
+    for x in uniq:
+        d = x["desc"]
+        if x["cls"] == "kind" and "." in d.split(":")[0]:
+            kinds.setdefault(d.split(":")[0], {})[d.split(":")[1]] = x["payload"]
+    pairs = [(k, v["baseline"], v["empty"]) for k, v in sorted(kinds.items()) if "baseline" in v and "empty" in v]
+    for i in range(0, len(pairs), 6):
+        items = []
+        for _k, base, empty in pairs[i:i + 6]:
+            items += [["junk", base + rng.choice(["ff", "0a", "ffffffffffffffffffffff"])], ["junk", empty]]
+        items.append(R)
+        S.append({"cls": "clean", "items": items, "pb": "damaged populated message then default-valued message of the same kind",
+                  "chunkings": [["sizes", []], ["every", rng.choice([1, 2, 5])]]})
+    classes = {"payloads_available": len(uniq), "payloads_used": len(singles) + len(packed), "damaged_then_default_pairs": len(pairs),
                "by_class_used": {c: sum(1 for x in singles + packed if x["cls"] == c) for c in ("enum", "kind", "value", "unknown")},
                "streams": len(S)}
     return S, classes
+
+
+def gen_collision_streams(ctx, pbm):
+    """Message kinds that carry the SAME name in several domains (start, stop, pdu, raw_pdu, send,
+    send_raw, sniff, jam, jammed, set_node_addr), mixed on one hub in every order, for a hub of the
+    last protocol version and of version 1; each stream replayed in a forked child (fresh process
+    state).  Class 'clean': every frame must come out as the class and bytes a hub that has seen
+    nothing else makes of it."""
+    rng = ctx.rng
+    by = {}
+    for x in pbm:
+        d = x["desc"]
+        if x["cls"] == "kind" and (d.endswith(":empty") or d.endswith(":baseline")) and "." in d:
+            dom, kind = d.split(":")[0].split(".", 1)
+            by.setdefault(kind, {}).setdefault(dom, []).append(x["payload"])
+    S = []
+    two = [["sizes", []], ["every", 1]]
+    def add(seq, v, name):
+        S.append({"cls": "clean", "items": [["junk", p] for p in seq], "chunkings": two, "v": v, "isolated": True,
+                  "pb": "same-named '%s' of %d domains, hub version %s" % (name, len(seq), v or "last")})
+    for kind, doms in sorted(by.items()):
+        if len(doms) < 2:
+            continue
+        names = sorted(doms)
+        pick = lambda d: doms[d][-1]               # the populated (baseline) payload
+        order = names[:]; rng.shuffle(order)
+        add([pick(d) for d in order], None, kind)
+        add([pick(d) for d in reversed(order)], None, kind)
+        add([doms[d][0] for d in order], 1, kind)
+        if ctx.thorough:
+            for v in (None, 1):
+                for a in names:
+                    for b in names:
+                        if a != b:
+                            add([pick(a), pick(b), pick(a)], v, kind)
+    return S
 
 
 # ---------------------------------------------------------------------------
@@ -621,7 +679,7 @@ def run(ctx):
         msgs.append(m)
     # a message is usable as a 'sent message' when the hub parses its own serialization back
     # to it (round trip is C02's business; e.g. create_verbose() yields an empty message)
-    usable = [m for m in msgs if m["rt"] == ["same"] and 0 < len(m["ser"]) // 2 < 65536]
+    usable = [m for m in msgs if m["rt"][0] == "same" and 0 < len(m["ser"]) // 2 < 65536]
     for m in msgs:
         if m not in usable:
             excluded.append([m["name"], "serializes to %d bytes, parse round trip %s" % (len(m["ser"]) // 2, m["rt"][0])])
@@ -639,6 +697,9 @@ def run(ctx):
     streams += gen_streams(ctx, pool, bigpool)
     pb_streams, pb_classes = gen_pb_streams(ctx, r1.get("pbmut", []), pool)
     streams += pb_streams
+    coll = gen_collision_streams(ctx, r1.get("pbmut", []))
+    pb_classes["same_name_streams"] = len(coll)
+    streams += coll
     for m in empty_msgs[:2]:
         # what the real sender writes for a message that serializes to nothing: a zero-length frame
         if m["frame"] == "acbe0000":
@@ -662,23 +723,27 @@ def run(ctx):
     for st in streams:
         for it in st["items"]:
             if it[0] == "junk":
-                want[it[1]] = None
+                want[(it[1], st.get("v"))] = None
             if it[0] == "zero":
-                want[""] = None
-    wl = sorted(want)
+                want[("", st.get("v"))] = None
+    wl = sorted(want, key=lambda k: (k[0], k[1] or 0))
     flat, owner = [], []
     for si, st in enumerate(streams):
         for ci, ch in enumerate(st["chs"]):
-            flat.append(hexs(split(st["stream"], ch))); owner.append((si, ci))
+            chunks = hexs(split(st["stream"], ch))
+            flat.append({"chunks": chunks, "v": st.get("v"), "isolated": True} if st.get("isolated") else chunks)
+            owner.append((si, ci))
 
     jobs = sweep_jobs(ctx)
     with ThreadPoolExecutor(max_workers=12) as ex:
-        fut_cases = ex.submit(C.run_impl, "C01.py", {"cases": flat, "parse": wl})
+        fut_cases = ex.submit(C.run_impl, "C01.py", {"cases": flat, "parse": [[h, v] for h, v in wl]})
         fut_sweeps = [(name, spec, ex.submit(C.run_impl, "C01.py", {"sweep": spec})) for name, spec in jobs]
         r2 = fut_cases.result()
         sweep_res = [(name, spec, f.result()["sweep"]) for name, spec, f in fut_sweeps]
-    for h, oc in zip(wl, r2["parse"]):
-        want[h] = oc
+    for k, oc in zip(wl, r2["parse"]):
+        want[k] = oc
+    # the class a hub that has seen nothing else gives to each sent message (round trip in a forked child)
+    cls_of_ser = {m["ser"]: m["rt"][-1] for m in usable}
     for st in streams:
         st["res"] = [None] * len(st["chs"])
     for (si, ci), res in zip(owner, r2["cases"]):
@@ -724,14 +789,16 @@ def run(ctx):
         sent = []
         for it, (k, a, b) in zip(items, lay):
             if k == "frame":
-                sent.append((a, b, it[2]))
+                sent.append((a, b, it[2], cls_of_ser.get(it[2])))
             elif k == "junk":
-                e = expected_of(want[it[1]], it[1])
+                oc = want[(it[1], st.get("v"))]
+                e = expected_of(oc, it[1])
                 if e is not None:
-                    sent.append((a, b, e))
+                    sent.append((a, b, e, oc[-1]))
         spans = desync_spans(s, lay) if st["cls"] == "trunc" else []
-        protected = [m for (a, b, m) in sent if not overlaps(a, b, spans)]
-        allsent = [m for (_a, _b, m) in sent]
+        protected = [m for (a, b, m, _c) in sent if not overlaps(a, b, spans)]
+        allsent = [m for (_a, _b, m, _c) in sent]
+        allcls = [c for (_a, _b, _m, c) in sent]
         ref = next((r for r in st["res"] if not r.get("skipped")), None)
         for ch, res in zip(st["chs"], st["res"]):
             if res.get("skipped"):
@@ -748,14 +815,22 @@ def run(ctx):
                 report("an exception escaped DevOutThread.ingest (the reader thread dies): " + res["exc"], case,
                        expected="no exception", observed=res["exc"])
                 continue
-            if out != ref["out"] and not ref["exc"]:
+            if st.get("pb"):
+                case["payload_kind"] = st["pb"]
+            if st.get("v") or st.get("isolated"):
+                case["hub_version"], case["isolated"] = st.get("v"), bool(st.get("isolated"))
+            if (out != ref["out"] or res.get("cls") != ref.get("cls")) and not ref["exc"]:
                 report("delivered messages depend on how the transport chunks the stream", case,
-                       expected=ref["out"][:8], observed=out[:8])
+                       expected=[ref["out"][:8], (ref.get("cls") or [])[:8]], observed=[out[:8], (res.get("cls") or [])[:8]])
                 continue
             if st["cls"] == "clean":
                 if out != allsent:
                     report("delivered messages differ from the messages framed and written (marker-free gaps only)", case,
                            expected=[h[:80] for h in allsent[:8]], observed=[h[:80] for h in out[:8]])
+                elif any(e is not None and e != g for e, g in zip(allcls, res.get("cls") or allcls)):
+                    bad = [(e, g) for e, g in zip(allcls, res["cls"]) if e is not None and e != g]
+                    report("a delivered message has the bytes that were sent but is an object of another message class", case,
+                           expected=[e for e, _g in bad[:4]], observed=[g for _e, g in bad[:4]])
             elif st["cls"] == "trunc":
                 nbogus = len(spans)
                 if not is_subseq(protected, out) or len(out) > len(allsent) + nbogus:
@@ -802,13 +877,18 @@ def run(ctx):
                                                          cbool(exc is not None)))
             stream_idx.append((si, chs))
     ctx.log("coq cases written: %d frame, %d stream" % (len(frame_terms), len(stream_terms)))
-    bad_f, logs_f = C.run_cases(PID, "frame", PRE, "payload * bytes", frame_terms, "check_frame", shard=40)
-    bad_l, logs_l = C.run_cases(PID, "framelong", PRE, "bytes", long_terms, "check_frame_long", shard=4, max_chars=250000)
+    # the three groups are evaluated concurrently (the two 65535-byte literals dominate the wall time)
+    with ThreadPoolExecutor(max_workers=3) as ex:
+        fut_f = ex.submit(C.run_cases, PID, "frame", PRE, "payload * bytes", frame_terms, "check_frame", shard=40)
+        fut_l = ex.submit(C.run_cases, PID, "framelong", PRE, "bytes", long_terms, "check_frame_long", shard=4, max_chars=250000)
+        fut_s = ex.submit(C.run_cases, PID, "stream", PRE, "list (bref * rtout) * bytes * list chunking * list bref * bool",
+                          stream_terms, "check_stream", shard=60 if ctx.thorough else 25, max_chars=300000)
+        bad_f, logs_f = fut_f.result()
+        bad_l, logs_l = fut_l.result()
+        bad_s, logs_s = fut_s.result()
     bad_f = bad_f + [len(frame_terms) + i for i in bad_l]
     frame_terms = frame_terms + long_terms
     fmsgs = [m for m in fmsgs if len(m["ser"]) <= 4000] + [m for m in fmsgs if len(m["ser"]) > 4000]
-    bad_s, logs_s = C.run_cases(PID, "stream", PRE, "list (bref * rtout) * bytes * list chunking * list bref * bool", stream_terms,
-                                "check_stream", shard=60 if ctx.thorough else 25, max_chars=300000)
     ctx.log("coq: frame+stream correspondence evaluated")
     sweep_bad, sweep_logs, sweep_cases, sweep_first = [], [], 0, None
     sweeps_aborted = any(sw.get("aborted") for _n, _s, sw in sweep_res)
@@ -905,10 +985,12 @@ def replay(payload):
         chunks = case["chunks"]
     else:
         chunks = hexs(split(stream, case.get("chunking") or ["sizes", []]))
-    r = C.run_impl("C01.py", {"cases": [chunks, [stream.hex()]]})
+    wrap = (lambda c: {"chunks": c, "v": case.get("hub_version"), "isolated": True}) if case.get("isolated") else (lambda c: c)
+    r = C.run_impl("C01.py", {"cases": [wrap(chunks), wrap([stream.hex()])]})
+    show = lambda x: {"out": x["out"], "classes": [c.rsplit(".", 1)[-1] for c in x.get("cls", [])], "exc": x["exc"]}
     print("stream (%d bytes): %s" % (len(stream), stream.hex()[:400]))
-    print("implementation now delivers under this chunking:", {"out": r["cases"][0]["out"], "exc": r["cases"][0]["exc"]})
-    print("implementation now delivers as a single chunk:  ", {"out": r["cases"][1]["out"], "exc": r["cases"][1]["exc"]})
+    print("implementation now delivers under this chunking:", show(r["cases"][0]))
+    print("implementation now delivers as a single chunk:  ", show(r["cases"][1]))
     if payload.get("expected") is not None:
         print("expected:", payload["expected"])
     return 0
